@@ -102,6 +102,7 @@ class Cfg:
         self.assert_fn = True
         self.skip_decorators = True
         self.odd_skip_reasons = True
+        self.stray_bytes = True
         self.exotic_patch_targets = True
         self.bulk_cleanups = True
         self.force_before_run = True
@@ -139,6 +140,8 @@ class _Gen:
             binary = t.chance("payload", 1, 3, "binary?")
         variant = t.draw("payload", 6 if allow_empty else 4, "payload-shape")
         body = tag + (b"\xff\xfe\x80" if binary else "café☃".encode("utf8"))
+        if not binary and self.cfg.stray_bytes and t.chance("payload", 1, 10, "text-with-stray-bytes"):
+            body = tag + b"caf\xff"          # a log with a stray byte, attached as utf8 text
         if variant == 0:
             chunks = [body]
         elif variant == 1:
